@@ -1,5 +1,6 @@
 """C08 - decoded quantities stay in their physical range for every accepted frame."""
 import json
+import re
 from collections import Counter
 
 from .. import core
@@ -34,10 +35,15 @@ def _report(run, rejected, res):
 
 
 def check(run):
-    res = dp.decode_pass(run, want={"c08"})
+    res = dp.decode_pass(run, want={"c08"}, count_keys=sorted(JUDGED))
     samples = dp.first_events(res, "c08.ndjson", n=3, pred=lambda e: any(l["k"] in JUDGED for l in e["leaves"]))
     rejected, n_events, results = dp.validate_parts(run, res, "trace/Trace_Ranges", "c08.ndjson", max_lines=150000)
     st = res["stats"]
+    # the key list used for counting must be the specification's
+    mm = re.search(r'<<\s*"JUDGED",\s*\{(.*?)\}\s*>>', results[0].out if results else "", re.S)
+    spec_keys = set(re.findall(r'"([^"]+)"', mm.group(1))) if mm else set()
+    if spec_keys != JUDGED:
+        raise core.ToolError(f"JUDGED of C08.py differs from JudgedKeys of Ranges.tla: {sorted(spec_keys ^ JUDGED)}")
     per = _report(run, rejected, res)
     keys = st["keys"]
     leaf_keys = Counter()
@@ -54,8 +60,9 @@ def check(run):
                 + "); the JSON text of every accepted message is flattened into (key, value) leaves; a null is re-read "
                   "from the struct (probe serializer) to tell None from NaN. One evaluation = one reported leaf; "
                   "leaves with a (key, value) already judged in the same driver process are not sent again (the judge is a "
-                  "function of key and value only). distinct_nontrivial = distinct (key, value) pairs judged by Ranges.tla "
-                  "(64-bit hash, merged over the driver processes).",
+                  "function of key and value only). distinct_nontrivial = distinct (key, value) pairs of the keys that have "
+                  "a domain in Ranges.tla (64-bit hash, merged over the driver processes); leaves of the other keys are "
+                  "only checked for finiteness and are not counted.",
         "samples": [{"hex": e["hex"], "cls": e["cls"], "leaves": e["leaves"][:6]} for e in samples],
         "exhaustive": False,
         "exhaustive_parts": "field extremes of every layout field of every shape"
